@@ -88,6 +88,46 @@ def gen_cases(rng, n):
     return cases
 
 
+def poisoned_cases(rng, n, dense):
+    """an evaluate() that raises (a division by a sample that is 0) between proper evaluations of the same offline object, written
+    with a named sub-formula: the failed call must leave nothing behind (seed C19-g: results memoised per evaluate() and not
+    cleared on the error path)"""
+    cases = []
+    for i in range(n):
+        ax = pred(rng.choice(["ge", "le"]), var("x"), const(rng.choice([0, 2])))
+        sub = rng.choice([lambda: ax, lambda: un(rng.choice(["once", "hist", "ev", "alw"]), ax), lambda: un(rng.choice(["onceT", "evT"]), ax, 0, rng.choice([1, 2])),
+                          lambda: bi("and", ax, pred("ge", var("y"), un("neg", const(1))))])()
+        quo = pred(rng.choice(["ge", "le"]), bi("div", var("x"), var("y")), const(rng.choice([0, 1, 2])))
+        phi = bi(rng.choice(["and", "or", "implies"]), sub, quo)
+        if rng.random() < 0.3:
+            phi = un(rng.choice(["alw", "once", "not"]), phi)
+        from modular import text_with_names
+        names = {id(sub): "helper"}
+        text = "helper = %s ; out = %s" % (to_text(sub, 1), text_with_names(phi, 1, names))
+        N = rng.choice([2, 3, 4, 6])
+        def data(poison):
+            if dense:
+                ts = sorted(set([0, N] + rng.sample(range(1, N), min(N - 1, rng.choice([0, 1, 2]))))) if N > 1 else [0, 1]
+                xs = [[t, rng.choice([-4, -2, 0, 2, 4])] for t in ts]
+                ys = [[t, rng.choice([-2, -1, 1, 2])] for t in ts]
+                if poison:
+                    ys[rng.randrange(len(ys))][1] = 0
+                return {"x": xs, "y": ys}
+            ys = [rng.choice([-2, -1, 1, 2]) for _ in range(N)]
+            if poison:
+                ys[rng.randrange(N)] = 0
+            return {"x": [rng.choice([-4, -2, 0, 2, 4]) for _ in range(N)], "y": ys}
+        seq = rng.choice([[False, True, False], [True, False], [False, True, True, False], [True, False, False]])
+        if dense:
+            o = ct_obj(phi, 1, ["x", "y"], text=text, factory=rng.choice(["StlDenseTimeSpecification", "StlDenseTimeOfflineSpecification"]))
+            evs = [ev_parse()] + [ev_ct("evaluate", data(p_), 1) for p_ in seq]
+        else:
+            o = dt_obj(phi, 1, ["x", "y"], text=text, factory=rng.choice(["StlDiscreteTimeSpecification", "StlDiscreteTimeOfflineSpecification"]))
+            evs = [ev_parse()] + [ev_evaluate(range(N), data(p_), 1) for p_ in seq]
+        cases.append(case([o], evs, skip=["evaluate.viol"]))
+    return cases
+
+
 def merge_seeds(runs):
     """runs: list (per hash seed) of trace lists for the same cases -> one case list with the objects of every seed side by side"""
     out = []
@@ -121,7 +161,7 @@ def main():
     if r["violated"]:
         rep.mc_violation("C11_iso", r)
     rng = random.Random(core.seed() * 7919 + 11)
-    cases = gen_cases(rng, 500 if quick else 6000)
+    cases = gen_cases(rng, 500 if quick else 6000) + poisoned_cases(rng, 40 if quick else 600, dense=False)
     seeds = [0, 1, 2, 3] if quick else list(range(16))
     wd = tlc.workdir("C11_seeds")
     with open(os.path.join(wd, "cases.json"), "w") as f:
@@ -177,6 +217,7 @@ def main():
             if not online and rng.random() < 0.4:
                 evs.append(ev_ct("evaluate", w, k + 1, share="sig"))      # evaluated again on the same data
         dcases.append(case(objs, evs))
+    dcases += poisoned_cases(rng, 40 if quick else 600, dense=True)
     dtr = runner.run_cases(dcases)
     dvs, dgen, ddist = core.validate("C11_dense", dtr, module="TraceCt")
     rep.add_traces(dtr, dvs, dgen, ddist, nontrivial_key=lambda c: str([o["text"] for o in c["objs"]]) + str(c["events"][-1]["w"]))
